@@ -185,6 +185,30 @@ def scribble_on_table(net):
     return True
 
 
+def scribble_on_results(sim):
+    """A caller post-processes the result tables the simulator hands out (charging_rates_as_df,
+    pilot_signals_as_df) in place - blanking small values, clipping, zeroing through the numpy
+    view.  The tables are the caller's; whatever pandas / numpy refuse is refused."""
+    with warnings.catch_warnings():
+        warnings.simplefilter("ignore")
+        for getter in (sim.charging_rates_as_df, sim.pilot_signals_as_df):
+            try:
+                tbl = getter()
+            except Exception:
+                continue
+            for edit in (
+                lambda: tbl.__setitem__(tbl < 6, 0.0),
+                lambda: tbl.clip(upper=1.0, inplace=True),
+                lambda: tbl.iloc.__setitem__((slice(None), slice(None)), 0.0),
+                lambda: tbl.values.__setitem__(Ellipsis, 0.0),
+                lambda: tbl.to_numpy().__setitem__(Ellipsis, 0.0),
+            ):
+                try:
+                    edit()
+                except (ValueError, TypeError, KeyError, IndexError):
+                    pass
+
+
 class TaggedPluginEvent(PluginEvent):
     """A user's own extension of a stock event class: it carries a tag and is otherwise the
     event it derives from (same event_type, same precedence, same constructor)."""
